@@ -19,10 +19,14 @@ fn verif_iso_models() -> (Workflow, Workflow) {
     (a, b)
 }
 // runs the given (model id, start n) processes at once; returns per pid: (sorted messages, outputs text, sorted task states)
-async fn verif_iso_run(cache_cap: i64, starts: Vec<(&'static str, i64)>) -> std::collections::BTreeMap<String, (Vec<String>, String, Vec<String>)> {
+async fn verif_iso_run(cache_cap: i64, starts: Vec<(&'static str, i64)>) -> std::collections::BTreeMap<String, (Vec<String>, String, Vec<String>)> { verif_iso_run_w(cache_cap, starts, false).await }
+// `window`: the FIRST process is started alone and waits at its interrupt; the others are started and -- before the runtime gets to launch them --
+// the client answers the first process, which then ends: a process ends in the window between the start call of another and its launch
+async fn verif_iso_run_w(cache_cap: i64, starts: Vec<(&'static str, i64)>, window: bool) -> std::collections::BTreeMap<String, (Vec<String>, String, Vec<String>)> {
     use std::collections::BTreeMap;
     use std::sync::{Arc, Mutex};
-    let config = crate::config::ConfigData { cache_cap: Some(cache_cap), keep_processes: Some(true), ..crate::config::ConfigData::default() };
+    // (window histories run with the default `keep_processes = false`: a finished process leaves the cache, which is what makes room for a restore)
+    let config = crate::config::ConfigData { cache_cap: Some(cache_cap), keep_processes: Some(!window), ..crate::config::ConfigData::default() };
     let engine = crate::EngineBuilder::new().set_config(&config).build().await.unwrap().start();
     let (a, b) = verif_iso_models();
     engine.executor().model().deploy(&a).unwrap();
@@ -30,10 +34,14 @@ async fn verif_iso_run(cache_cap: i64, starts: Vec<(&'static str, i64)>) -> std:
     let seen: Arc<Mutex<BTreeMap<String, (Vec<String>, String, Vec<String>)>>> = Arc::new(Mutex::new(BTreeMap::new()));
     let s1 = seen.clone();
     let ex = engine.executor().clone();
+    let held: Arc<Mutex<Option<(String, String)>>> = Arc::new(Mutex::new(None));
+    let (h1, first_pid) = (held.clone(), Arc::new(Mutex::new(String::new())));
+    let fp = first_pid.clone();
     engine.channel().on_message(move |e| {
         s1.lock().unwrap().entry(e.pid.clone()).or_default().0.push(format!("{}:{}:{}", e.r#type, e.nid, e.state));
         // the client answers an interrupt with the token of THAT process (read from the message it was sent)
         if e.is_key("ask") && e.is_state(MessageState::Created) {
+            if window && e.pid == *fp.lock().unwrap() { *h1.lock().unwrap() = Some((e.pid.clone(), e.tid.clone())); return; }
             let tok = format!("answer-for-{}", e.pid);
             let _ = ex.act().complete(&e.pid, &e.tid, &Vars::new().with("got", tok));
         }
@@ -45,8 +53,20 @@ async fn verif_iso_run(cache_cap: i64, starts: Vec<(&'static str, i64)>) -> std:
     let mut pids = Vec::new();
     for (i, (mid, n)) in starts.iter().enumerate() {
         let pid = format!("viso{i}_{}", utils::shortid());
+        if i == 0 { *first_pid.lock().unwrap() = pid.clone(); }
         engine.executor().proc().start(mid, &Vars::new().with("pid", pid.clone()).with("n", *n).with("tok", format!("tok-{pid}"))).unwrap();
         pids.push(pid);
+        if window && i == 0 {
+            // wait until the first process waits at its interrupt
+            for _ in 0..200 { if held.lock().unwrap().is_some() { break; } tokio::time::sleep(std::time::Duration::from_millis(25)).await; }
+        }
+    }
+    if window {
+        // no await since the last start call: the runtime has not launched the processes started after the first one yet
+        let _ = engine.runtime().cache().count();
+        if let Some((pid, tid)) = held.lock().unwrap().clone() {
+            let _ = engine.executor().act().complete(&pid, &tid, &Vars::new().with("got", format!("answer-for-{pid}")));
+        }
     }
     for _ in 0..300 {
         tokio::time::sleep(std::time::Duration::from_millis(50)).await;
@@ -97,6 +117,19 @@ fn verif_replay_hist_isolation() {
             if got.1 != reference[i].1 { bad.push(format!("REPLAY-FAIL {what}: outputs {} -- alone: {}", got.1, reference[i].1)); }
             if got.0 != reference[i].0 { bad.push(format!("REPLAY-FAIL {what}: messages {:?} -- alone: {:?}", got.0, reference[i].0)); }
             if got.2 != reference[i].2 { bad.push(format!("REPLAY-FAIL {what}: task states {:?} -- alone: {:?}", got.2, reference[i].2)); }
+        }
+    }
+    // a process that ends in the window between the start call of another process and its launch (single thread; capacity 1, 2 and 100)
+    for cap in [1i64, 2, 100] {
+        let st: Vec<(&'static str, i64)> = vec![starts[0], starts[1], starts[3]];
+        let idx = [0usize, 1, 3];
+        let st2 = st.clone();
+        let run = verif_iso_block_on(1, async move { verif_iso_run_w(cap, st2, true).await });
+        for (k, i) in idx.iter().enumerate() {
+            let got = run.get(&format!("{k}")).cloned().unwrap_or_default();
+            let what = format!("process 0 ends between the start call and the launch of the others, cache capacity {cap}: process {k} ({}, n={})", st[k].0, st[k].1);
+            if got.1 != reference[*i].1 { bad.push(format!("REPLAY-FAIL {what}: outputs {} -- alone: {}", got.1, reference[*i].1)); }
+            if got.0 != reference[*i].0 { bad.push(format!("REPLAY-FAIL {what}: messages {:?} -- alone: {:?}", got.0, reference[*i].0)); }
         }
     }
     for b in bad.iter().take(10) { println!("{b}"); }
